@@ -19,6 +19,7 @@ class Job:
     def __init__(self, name, bin, quick, thorough, args=(), env=None, thorough_only=False,
                  timeout_quick=900, timeout_thorough=3600, build_failure_is_violation=False, probe_only=False):
         self.probe_only = probe_only    # no campaign: only used to replay the probe case of a known finding
+        self.args_thorough = None       # optional: other arguments in the thorough tier
         self.name = name
         self.bin = bin
         self.quick = quick          # (processes, cases per process, max size)
@@ -470,24 +471,22 @@ PROPS["C15"].jobs += [fuzz_job("fuzz-tree-d3", fuzz_bin("tree", 3), 4000, 60000,
 
 
 # ---- bounded-exhaustive occupancy patterns of small trees (C01, C07): every non-empty subset of the leaves x block sizes {1,2,3,5,n} x both modes
-def exhaustive_jobs(quick):
+def exhaustive_jobs():
     jobs = []
-    # (dimension, height, processes): 2^16-1 patterns for Dim 1 H 5 and Dim 2 H 3, 255 for Dim 3 H 2 and Dim 1 H 4
+    # (dimension, height, processes): 2^16-1 patterns for Dim 1 H 5 and Dim 2 H 3, 255 for Dim 3 H 2 and Dim 1 H 4.
+    # thorough: every pattern; quick: every 16th pattern of the two large enumerations (all of the small ones)
     for dim, h, parts in ((1, 5, 6), (2, 3, 6), (3, 2, 1), (1, 4, 1)):
-        if quick and (dim, h) in ((1, 5), (2, 3)):
-            # quick tier: a 1/4 slice of the large enumerations (every 4th pattern), thorough: all
-            for k in range(parts):
-                jobs.append(Job("exh-d%d-h%d-%d" % (dim, h, k), single(dim), quick=(1, 1, 1), thorough=(1, 1, 1),
-                                args=["--mode", "exhaustive", "--exh", str(h), "--part", str(k), "--parts", str(parts)]))
-        else:
-            for k in range(parts):
-                jobs.append(Job("exh-d%d-h%d-%d" % (dim, h, k), single(dim), quick=(1, 1, 1), thorough=(1, 1, 1),
-                                args=["--mode", "exhaustive", "--exh", str(h), "--part", str(k), "--parts", str(parts)]))
+        for k in range(parts):
+            big = parts > 1
+            j = Job("exh-d%d-h%d-%d" % (dim, h, k), single(dim), quick=(1, 1, 1), thorough=(1, 1, 1),
+                    args=["--mode", "exhaustive", "--exh", str(h), "--part", str(k), "--parts", str(parts * (16 if big else 1))])
+            j.args_thorough = ["--mode", "exhaustive", "--exh", str(h), "--part", str(k), "--parts", str(parts)]
+            jobs.append(j)
     return jobs
 
 
-PROPS["C01"].jobs += exhaustive_jobs(True)
-PROPS["C07"].jobs += exhaustive_jobs(True)
+PROPS["C01"].jobs += exhaustive_jobs()
+PROPS["C07"].jobs += exhaustive_jobs()
 
 
 # ---- C02 also quantifies over the other executors and orderings: run their binaries with --prop C02 (argument checks asserted) -------------
